@@ -143,7 +143,7 @@ static void check_case(vg::Src& s, vh::Ctx& c)
     {
         g = va::make_graph(*grid, ops);
     }
-    catch (const std::invalid_argument& e)
+    catch (const std::exception& e)  // "fails with an error": any error type counts
     {
         threw = true;
         what = e.what();
